@@ -326,6 +326,7 @@ static Result run_child(const uint8_t *d, size_t n, bool verbose, bool keep_stat
     if (r.kind == Failed && r.tag == "leak") {
       std::string fn = first_repo_func(r.err, r.err.find("ERROR: LeakSanitizer"));
       if (!fn.empty()) r.tag = "leak@" + fn;
+      r.msg += "\n" + r.err.substr(0, 5000);
     }
   } else {
     r.tag = classify(r.err, status);
